@@ -651,7 +651,7 @@ fn gen_case(rng: &mut Rng, ctx: &Ctx, pools: &Pools) -> SchedCase {
         _ => Policy::Latency,
     };
     let mut proc_refs = vec![];
-    for _ in 0..2 {
+    for _ in 0..1 {
         let t = rng.usize_below(threads.len());
         let k = rng.usize_below(threads[t].jobs.len());
         if !proc_refs.contains(&(t, k)) {
@@ -759,7 +759,7 @@ impl Engine for SchedEngine {
         if ctx.tier == "thorough" {
             6_000
         } else {
-            300
+            200
         }
     }
     fn unit_timeout_s(&self) -> u64 {
@@ -963,7 +963,7 @@ impl Engine for SchedEngine {
     }
     fn assumptions(&self) -> Vec<String> {
         vec![
-            "reference = the same job alone on a fresh OS thread (empty interner), fixed hash key, no co-runners, same process; for two jobs per run additionally the same job as the first compilation of a pristine process (process-level history)".into(),
+            "reference = the same job alone on a fresh OS thread (empty interner), fixed hash key, no co-runners, same process; for one job per run additionally the same job as the first compilation of a pristine process (process-level history)".into(),
             "interleavings are explored at scheduling points only (SimFs and SimLogger calls, sim-yield(), job boundaries, and with H1 every interner and global-counter operation); code between points is assumed atomic, which holds for safe Rust without shared mutable state".into(),
             "once_cell Lazy tables are forced before simulation starts (first-use races are once_cell's responsibility)".into(),
             "programs using random()/unique-id() are excluded from the comparison, as the property says; unique-id() is checked separately for distinctness and identifier syntax".into(),
